@@ -225,11 +225,11 @@ struct RegpHarness : Harness {
     std::vector<std::string> probes(const std::string &p) const override {
         std::vector<std::string> v;
         if (p == "C06") { for (int k = 0; k < 12; ++k) { v.push_back("verdict_read_" + std::to_string(k)); v.push_back("verdict_write_" + std::to_string(k)); }
-            for (const char *s : {"pipelined_3_or_more", "sequence_wrap", "word_size_mismatch", "response_ignored", "meta_ignored", "mem8", "mem16", "serial", "tcp", "zero_block_size", "request_from_real_client", "register_table_verdict_mapped", "reception_failure_inside_session", "block_recycled_with_stale_content"}) v.push_back(s); }
+            for (const char *s : {"pipelined_3_or_more", "sequence_wrap", "word_size_mismatch", "response_ignored", "meta_ignored", "mem8", "mem16", "serial", "tcp", "zero_block_size", "request_from_real_client", "register_table_verdict_mapped", "reception_failure_inside_session", "block_recycled_with_stale_content", "reply_received_and_ignored_by_client"}) v.push_back(s); }
         else if (p == "C07") for (const char *s : {"flip1", "flip2", "burst", "truncate", "extend", "header_word_flip", "class_header_encoding", "class_header_crc", "class_payload_size", "class_payload_crc", "raw_accept", "raw_tcp", "option_plcrc_without_hdcrc", "odd_payload_ws16", "payload_fault_answered_with_error_response"}) v.push_back(s);
         else if (p == "C08") { for (const char *s : {"req_read8", "req_read16", "req_write8", "req_write16", "resp_ack_payload", "resp_ack_empty", "resp_meta", "payload_with_slip_control_octets", "varint_prefix_2_octets", "sequence_wrap", "roundtrip_accepted"}) v.push_back(s);
             for (int k = 1; k < 12; ++k) v.push_back("resp_code_" + std::to_string(k)); }
-        else for (const char *s : {"alloc_failure_with_parsable_header", "alloc_failure_without_parsable_header", "empty_frame", "short_frame", "frame_len_room_minus_1", "frame_len_room", "frame_len_room_plus_1", "rx_overflow", "read_at_limit_minus_1", "read_at_limit", "read_at_limit_plus_1", "tx_overflow", "channel_error_mid_frame", "odd_payload_ws16", "slab_allocator", "block_size_minimum", "served_after_fault"}) v.push_back(s);
+        else for (const char *s : {"alloc_failure_with_parsable_header", "alloc_failure_without_parsable_header", "empty_frame", "short_frame", "frame_len_room_minus_1", "frame_len_room", "frame_len_room_plus_1", "rx_overflow", "read_at_limit_minus_1", "read_at_limit", "read_at_limit_plus_1", "tx_overflow", "channel_error_mid_frame", "odd_payload_ws16", "slab_allocator", "block_size_minimum", "served_after_fault", "illegal_slip_sequence_on_the_wire"}) v.push_back(s);
         return v;
     }
     Json describe(const std::string &p) const override {
@@ -391,6 +391,12 @@ struct RegpHarness : Harness {
                 Json o = Json::obj(); o["k"] = "seg";
                 Bytes b;
                 bool ws16 = r.chance(1, 6) ? (mt != 16) : (mt == 16);
+                if (serial && r.chance(1, 8)) {   // line garbage at wire level: arbitrary octets incl. invalid escapes and stray delimiters
+                    Bytes w = gen_payload_plain(r, (size_t)r.range(1, 24));
+                    if (r.chance(1, 2)) { Bytes v = slip(encode(gen_valid(r, serial, T_WREQ, ws16, 4))); size_t at = r.below(v.size()); v.insert(v.begin() + (long)at, w.begin(), w.end()); w = v; }
+                    o["k"] = "wire"; o["raw"] = hexs(w); o["verdict"] = (long long)r.below(12); o["salt"] = (long long)r.below(100000);
+                    ops.push(o); continue;
+                }
                 switch (r.below(10)) {
                 case 0: b.clear(); break;                                                                  // empty frame
                 case 1: b = gen_payload(r, (size_t)r.range(1, 11)); break;                                 // shorter than a header
@@ -532,7 +538,8 @@ struct RegpHarness : Harness {
         Wire c2s, s2c, dummy;
         Node srv(c, &c2s, &s2c, cf.serial, cf.mt, cf.block, cf.slab, cf.so, cf.ko);
         srv.led.recycle = cf.recycle;
-        Node cli(c, &dummy, &c2s, cf.serial, cf.mt, 256, false, false, cf.ko);   // the client only emits
+        Node cli(c, &s2c, &c2s, cf.serial, cf.mt, cf.block + 64, false, cf.so, cf.ko);   // the client emits requests and receives the replies
+        (void)dummy;
         load_frag(srv.src, plan);
         cli.p.session.sequence = cf.seq0;
         COUNT(cf.serial ? "probe.serial" : "probe.tcp"); COUNT(cf.mt == 16 ? "probe.mem16" : "probe.mem8");
@@ -550,6 +557,17 @@ struct RegpHarness : Harness {
             c.ops_done++;
             Ctxt x; x.cf = &cf; x.verdict = pd.verdict; x.vaddr = pd.vaddr;
             if (!judge(c, srv, pd.raw, S, x, "served")) return false;
+            // the requesting side receives and processes every reply: accepted by its receiver, and ignored (no access, nothing emitted)
+            while (s2c.rpos < s2c.data.size()) {
+                size_t c2s_before = c2s.data.size();
+                Served C = serve(cli, 0);
+                if (!C.recv_returned || !C.proc_returned || C.rc_recv < 0 || C.rc_proc < 0) { c.fail("client.recv", "the client could not receive the server's reply (recv %d, process %d)", C.rc_recv, C.rc_proc); return false; }
+                if (C.error_id != 0) { c.fail("client.verdict", "the client's receiver rejects the server's reply with error id %d", C.error_id); return false; }
+                if (C.be_calls != 0) { c.fail("client.executed", "processing a %s caused %zu memory access(es) on the client", C.got.type == T_META ? "meta message" : "response", C.be_calls); return false; }
+                if (c2s.data.size() != c2s_before) { c.fail("client.replied", "processing a response or meta message emitted %zu octets", c2s.data.size() - c2s_before); return false; }
+                if (C.live_after) { c.fail("client.leak", "client holds %zu block(s) after free", C.live_after); return false; }
+                COUNT("probe.reply_received_and_ignored_by_client");
+            }
             if (v == V_ACCEPT && f.is_request() && ((f.options & OPT_WS16) != 0) == (cf.mt == 16)) { counters().val[(size_t)counters().id((std::string(f.type == T_RREQ ? "probe.verdict_read_" : "probe.verdict_write_") + std::to_string(pd.verdict)).c_str())]++; if (f.bsize == 0) COUNT("probe.zero_block_size"); }
             else if (v == V_ACCEPT && f.is_request()) COUNT("probe.word_size_mismatch");
             else if (v == V_ACCEPT && f.is_response()) COUNT("probe.response_ignored");
@@ -792,12 +810,32 @@ struct RegpHarness : Harness {
         if (cf.block <= sizeof(RPFrame) + 4) COUNT("probe.block_size_minimum");
         const size_t room = cf.block - sizeof(RPFrame);
         const Json &ops = plan.get("ops");
-        struct Seg { Bytes raw; int verdict; uint64_t salt; size_t wire_end; };
+        struct Seg { Bytes raw; int verdict; uint64_t salt; size_t wire_end; bool eilseq = false; };
         std::vector<Seg> segs;
         for (size_t oi = 0; oi < ops.size() && oi < 12; ++oi) {
             const Json &o = ops.at(oi);
             Seg s; s.raw = unhex(o.gets("raw")); if (s.raw.size() > 70000) s.raw.resize(70000);
             s.verdict = (int)(o.geti("verdict") % 12); if (s.verdict < 0) s.verdict = 0; s.salt = (uint64_t)o.geti("salt");
+            if (o.gets("k") == "wire" && cf.serial) {
+                // wire-level octets: split into what each regp_recv call will see (reference reading of RFC 1055:
+                // END closes a frame; ESC followed by anything but ESC_END/ESC_ESC is an illegal sequence that ends the call)
+                Bytes w = s.raw; if (w.size() > 4096) w.resize(4096);
+                if (w.empty() || w.back() != 0xc0 || (w.size() >= 2 && w[w.size() - 2] == 0xdb)) { w.push_back(0x00); w.push_back(0xc0); }
+                Bytes cur; size_t i = 0;
+                while (i < w.size()) {
+                    uint8_t x = w[i++];
+                    Seg e; e.verdict = s.verdict; e.salt = s.salt;
+                    if (x == 0xc0) { e.raw = cur; cur.clear(); e.wire_end = c2s.data.size() + i; segs.push_back(e); }
+                    else if (x == 0xdb) {
+                        uint8_t y = i < w.size() ? w[i++] : 0;
+                        if (y == 0xdc) cur.push_back(0xc0); else if (y == 0xdd) cur.push_back(0xdb);
+                        else { e.eilseq = true; cur.clear(); e.wire_end = c2s.data.size() + i; segs.push_back(e); }
+                    } else cur.push_back(x);
+                }
+                c2s.data.insert(c2s.data.end(), w.begin(), w.end());
+                c.faults_fired++; COUNT("fault.wire_level_garbage");
+                continue;
+            }
             Bytes w = frame_on(cf.serial, s.raw);
             c2s.data.insert(c2s.data.end(), w.begin(), w.end());
             s.wire_end = c2s.data.size();
@@ -823,6 +861,15 @@ struct RegpHarness : Harness {
             };
             if (!S.recv_returned || !S.proc_returned) { F("noprogress.stream", "%s did not return within the step budget", S.recv_returned ? "regp_process" : "regp_recv"); return; }
             if (S.unknown_free) { F("badfree.stream", "a pointer that is not a live allocator block was released"); return; }
+            if (sg.eilseq && !(srv.src.err_fired && !err_before)) {
+                COUNT("probe.illegal_slip_sequence_on_the_wire");
+                if (S.rc_recv != -EILSEQ) { F("eilseq.stream", "illegal SLIP escape on the wire: regp_recv returned %d (error id %d), expected -EILSEQ", S.rc_recv, S.error_id); return; }
+                if (S.live_after != 0) { F("leak.eilseq", "regp_recv returned -EILSEQ and %zu allocator block(s) are still held", S.live_after); return; }
+                if (S.be_calls) { F("executed.eilseq", "memory accessed although reception failed"); return; }
+                if (!S.reply_wire.empty()) { F("reply.eilseq", "a reply was sent although regp_recv failed with a framing error"); return; }
+                faulted = true;
+                continue;
+            }
             bool chan_err = (srv.src.err_fired && !err_before) || (trunc > 0 && si + 1 == segs.size());
             if (chan_err) {
                 // the receiver returns the channel error and must have released its block itself
